@@ -3,7 +3,8 @@
 //! into ndjson; the verdict is TLC's (spec/UpgradeTrace.tla).
 //!
 //!   gate cases  <cases.ndjson> <out.ndjson>     one case per input line: {"id","req","cfg"[,"conc"][,"src"]}
-//!   gate random <seed> <n> <out.ndjson>         seeded random cases over the full matrix, random PSKs / keys
+//!   gate random <seed> <n> <out.ndjson> [echo]  seeded random cases over the full matrix, random PSKs / keys
+//!                                               (echo: with the fallback proxying to a local backend)
 //!
 //! A case is the abstract request of spec/Upgrade.tla (method, path, one variant per header, upgrade extension)
 //! plus a configuration; `conc` fixes the concrete material (PSK octets, key octets, which near-miss of a pool).
@@ -16,6 +17,7 @@ use http::{HeaderValue, Method, Request};
 use http_body_util::{BodyExt, Empty};
 use hyper::service::Service;
 use hyper::upgrade::OnUpgrade;
+use rusty_penguin_lib::arg::BackendUrl;
 use rusty_penguin_lib::server::State;
 use serde_json::{Value, json};
 use std::io::{BufRead, BufReader, BufWriter, Write};
@@ -30,9 +32,10 @@ const HEADERS: [(&str, &str); 6] = [
     ("psk", "x-penguin-psk"),
 ];
 const BASE_VARIANTS: [&str; 9] = ["absent", "exact", "case", "near", "dupgood", "dupgb", "dupbg", "empty", "list"];
-const METHODS: [&str; 6] = ["GET", "POST", "HEAD", "PUT", "OPTIONS", "get"];
-const PATHS: [&str; 7] = ["ws", "health", "version", "other", "ws_upper", "ws_slash", "ws_query"];
+const METHODS: [&str; 10] = ["GET", "POST", "HEAD", "PUT", "DELETE", "OPTIONS", "PATCH", "CONNECT", "TRACE", "get"];
+const PATHS: [&str; 8] = ["ws", "health", "version", "other", "ws_upper", "ws_slash", "ws_nested", "ws_query"];
 const TWIN_PATH: &str = "/qzx/none";
+const SEEN_URI: &str = "x-seen-uri";
 const NOT_FOUND: &str = "not found in the gate check";
 const DEFAULT_PSK: &[u8] = b"Correct-Horse 42";
 const SAMPLE_KEY: &str = "dGhlIHNhbXBsZSBub25jZQ==";
@@ -172,25 +175,25 @@ fn material(h: &str, c: &Conc) -> (Vec<u8>, Vec<u8>, Vec<u8>, Vec<u8>) {
         "conn" => (
             b"upgrade".to_vec(),
             pick(&[b"UpGrAdE", b"UPGRADE", b"Upgrade"], k),
-            pick(&[b"upgrades", b"upgrad", b"close", b"keep-alive", b"upgrade2", b"xupgrade"], k),
+            pick(&[b"upgrades", b"upgrad", b"close", b"xupgrade", b"upgrade2", b"keep-alive"], k),
             pick(&[b"keep-alive, Upgrade", b"upgrade, keep-alive", b"Upgrade,HTTP2-Settings"], k),
         ),
         "upgrade" => (
             b"websocket".to_vec(),
             pick(&[b"WebSocket", b"WEBSOCKET", b"wEBsOCKET"], k),
-            pick(&[b"websocket2", b"websockets", b"h2c", b"web socket", b"websocke"], k),
+            pick(&[b"websocket2", b"websocke", b"h2c", b"xwebsocket", b"web socket", b"websockets"], k),
             pick(&[b"websocket, h2c", b"h2c, WebSocket"], k),
         ),
         "version" => (
             b"13".to_vec(),
             b"13".to_vec(), // no letters: the case variant of 13 is 13
-            pick(&[b"14", b"12", b"1", b"8", b"130", b"3"], k),
+            pick(&[b"14", b"1", b"8", b"213", b"130", b"12"], k),
             pick(&[b"13, 8", b"8, 13"], k),
         ),
         "proto" => (
             b"penguin-v7".to_vec(),
             pick(&[b"PENGUIN-V7", b"Penguin-V7", b"penguin-V7"], k),
-            pick(&[b"penguin-v6", b"penguin-v8", b"penguin-v70", b"penguin", b"penguin-v", b"penguin_v7"], k),
+            pick(&[b"penguin-v6", b"penguin-v", b"penguin", b"xpenguin-v7", b"penguin-v70", b"penguin_v7"], k),
             pick(&[b"penguin-v6, penguin-v7", b"penguin-v7, chat"], k),
         ),
         "key" => {
@@ -210,10 +213,12 @@ fn material(h: &str, c: &Conc) -> (Vec<u8>, Vec<u8>, Vec<u8>, Vec<u8>) {
         "psk" => {
             let p = c.psk.clone();
             let n = p.len();
-            let near = match k % 3 {
+            // proper prefixes of the PSK; pick 3: a proper suffix
+            let near = match k % 4 {
                 0 => p[..n - 1].to_vec(),
                 1 => p[..1].to_vec(),
-                _ => p[..n.div_ceil(2).min(n - 1)].to_vec(),
+                2 => p[..n.div_ceil(2).min(n - 1)].to_vec(),
+                _ => p[1..].to_vec(),
             };
             (p.clone(), swap_case(&p), near, join(&p, &p))
         }
@@ -223,7 +228,7 @@ fn material(h: &str, c: &Conc) -> (Vec<u8>, Vec<u8>, Vec<u8>, Vec<u8>) {
 
 fn padded(p: &[u8], k: usize) -> Vec<u8> {
     let mut v = Vec::new();
-    match k % 5 {
+    match k % 6 {
         0 => {
             v.extend_from_slice(p);
             v.push(b' ');
@@ -240,8 +245,12 @@ fn padded(p: &[u8], k: usize) -> Vec<u8> {
             v.extend_from_slice(p);
             v.push(b'x');
         }
-        _ => {
+        4 => {
             v.push(b'x');
+            v.extend_from_slice(p);
+        }
+        _ => {
+            v.extend_from_slice(p);
             v.extend_from_slice(p);
         }
     }
@@ -273,6 +282,7 @@ fn path_of(p: &str) -> Result<(&'static str, &'static str), String> {
         "other" => ("/index.html", ""),
         "ws_upper" => ("/WS", ""),
         "ws_slash" => ("/ws/", ""),
+        "ws_nested" => ("/x/ws", ""),
         "ws_query" => ("/ws", "x=1"),
         _ => return Err(format!("unknown path {p}")),
     })
@@ -341,18 +351,25 @@ async fn observe(state: &State, req: Request<Empty<Bytes>>) -> Value {
         Ok((parts, body))
     });
     let out = match tokio::time::timeout(Duration::from_secs(10), task).await {
-        Err(_) => return json!({"res": "hang", "status": 0, "headers": [], "body": "", "proto": [], "accept": []}),
+        Err(_) => return json!({"res": "hang", "status": 0, "headers": [], "body": "", "proto": [], "accept": [], "seen_uri": []}),
         Ok(o) => o,
     };
     match out {
         Err(join) => json!({"res": if join.is_panic() { "panic" } else { "cancelled" },
-                            "status": 0, "headers": [], "body": "", "proto": [], "accept": []}),
-        Ok(Err(e)) => json!({"res": "err", "error": e, "status": 0, "headers": [], "body": "", "proto": [], "accept": []}),
+                            "status": 0, "headers": [], "body": "", "proto": [], "accept": [], "seen_uri": []}),
+        Ok(Err(e)) => json!({"res": "err", "error": e, "status": 0, "headers": [], "body": "", "proto": [], "accept": [], "seen_uri": []}),
         Ok(Ok((parts, body))) => {
+            // what the echo backend saw as request target (not part of the compared response: it names the path)
+            let seen: Vec<String> = parts
+                .headers
+                .get_all(SEEN_URI)
+                .iter()
+                .map(|v| String::from_utf8_lossy(v.as_bytes()).into_owned())
+                .collect();
             let mut headers: Vec<(String, String)> = parts
                 .headers
                 .iter()
-                .filter(|(n, _)| n.as_str() != "date")
+                .filter(|(n, _)| n.as_str() != "date" && n.as_str() != SEEN_URI)
                 .map(|(n, v)| (n.as_str().to_string(), String::from_utf8_lossy(v.as_bytes()).into_owned()))
                 .collect();
             headers.sort();
@@ -365,7 +382,7 @@ async fn observe(state: &State, req: Request<Empty<Bytes>>) -> Value {
                 .map(|v| String::from_utf8_lossy(v.as_bytes()).into_owned())
                 .collect();
             json!({"res": "ok", "status": parts.status.as_u16(), "headers": headers, "body": hex(&body),
-                   "proto": proto, "accept": accept})
+                   "proto": proto, "accept": accept, "seen_uri": seen})
         }
     }
 }
@@ -374,11 +391,55 @@ fn bytes_of(v: &Value) -> Option<Vec<u8>> {
     v.as_array()?.iter().map(|x| x.as_u64().and_then(|n| u8::try_from(n).ok())).collect()
 }
 
-async fn run_case(base: &State, case: &Value) -> Result<Value, String> {
+/// The backend of configuration backend = "echo": a local HTTP/1 server whose answer is a function of the method
+/// and the headers of the request it receives (not of the path), and which reports the request target it saw in
+/// a header that `observe` takes out of the compared response.
+async fn start_echo_backend() -> Result<&'static BackendUrl, String> {
+    use hyper::body::Incoming;
+    use hyper::service::service_fn;
+    use hyper_util::rt::TokioIo;
+    let listener = tokio::net::TcpListener::bind(("127.0.0.1", 0)).await.map_err(|e| format!("bind: {e}"))?;
+    let addr = listener.local_addr().map_err(|e| e.to_string())?;
+    tokio::spawn(async move {
+        loop {
+            let Ok((stream, _)) = listener.accept().await else { continue };
+            tokio::spawn(async move {
+                let svc = service_fn(|req: Request<Incoming>| async move {
+                    let mut lines: Vec<String> = req
+                        .headers()
+                        .iter()
+                        .map(|(n, v)| format!("{}: {}", n.as_str(), String::from_utf8_lossy(v.as_bytes())))
+                        .collect();
+                    lines.sort();
+                    let body = format!("echo backend\n{}\n{}\n", req.method().as_str(), lines.join("\n"));
+                    let target = req.uri().path_and_query().map_or("", |p| p.as_str()).to_string();
+                    // a 2xx answer to CONNECT would switch the connection to a tunnel
+                    let status = if req.method() == Method::CONNECT { 405 } else { 200 };
+                    http::Response::builder()
+                        .status(status)
+                        .header("x-backend", "echo")
+                        .header(SEEN_URI, target)
+                        .body(http_body_util::Full::new(Bytes::from(body)))
+                });
+                let _ = hyper::server::conn::http1::Builder::new().serve_connection(TokioIo::new(stream), svc).await;
+            });
+        }
+    });
+    let url: BackendUrl = format!("http://{addr}").parse().map_err(|e| format!("backend url: {e}"))?;
+    Ok(Box::leak(Box::new(url)))
+}
+
+struct Ctx {
+    base: State,
+    backend: Option<&'static BackendUrl>,
+}
+
+async fn run_case(ctx: &mut Ctx, case: &Value) -> Result<Value, String> {
+    let base = &ctx.base;
     let conc = Conc {
         psk: case["conc"]["psk"].as_array().and_then(|_| bytes_of(&case["conc"]["psk"])).unwrap_or_else(|| DEFAULT_PSK.to_vec()),
         key: case["conc"]["key"].as_array().and_then(|_| bytes_of(&case["conc"]["key"])).unwrap_or_else(|| SAMPLE_KEY.as_bytes().to_vec()),
-        pick: case["conc"]["pick"].as_u64().unwrap_or(0) as usize,
+        pick: case["conc"]["pick"].as_u64().or_else(|| case["pick"].as_u64()).unwrap_or(0) as usize,
     };
     if conc.psk.len() < 2 || conc.key.is_empty() {
         return Err("conc: PSK of at least 2 octets and a non-empty key".into());
@@ -386,16 +447,23 @@ async fn run_case(base: &State, case: &Value) -> Result<Value, String> {
     let cfg = &case["cfg"];
     let with_psk = cfg["psk"].as_bool().ok_or("cfg.psk")?;
     let obfs = cfg["obfs"].as_bool().ok_or("cfg.obfs")?;
-    if cfg["backend"].as_str() != Some("none") {
-        return Err("only backend = none is supported".into());
-    }
+    let backend = match cfg["backend"].as_str() {
+        Some("none") => None,
+        Some("echo") => {
+            if ctx.backend.is_none() {
+                ctx.backend = Some(start_echo_backend().await?);
+            }
+            ctx.backend
+        }
+        _ => return Err("cfg.backend: none or echo".into()),
+    };
     let psk_cfg: Vec<Vec<u8>> = if with_psk { vec![conc.psk.clone()] } else { vec![] };
     let psk_static: Option<&'static HeaderValue> = if with_psk {
         Some(Box::leak(Box::new(HeaderValue::from_bytes(&conc.psk).map_err(|e| e.to_string())?)))
     } else {
         None
     };
-    let state = base.clone().with_ws_psk(psk_static).obfs(obfs).with_not_found_resp(NOT_FOUND);
+    let state = base.clone().with_ws_psk(psk_static).obfs(obfs).with_not_found_resp(NOT_FOUND).with_backend(backend);
 
     let req = build(case, &conc, false)?;
     let twin = build(case, &conc, true)?;
@@ -444,7 +512,7 @@ fn selftest_line() -> Value {
     })
 }
 
-fn random_case(rng: &mut Rng, id: usize) -> Value {
+fn random_case(rng: &mut Rng, id: usize, echo: bool) -> Value {
     // every field keeps its valid value with probability 0.62 so that requests near the valid one are frequent
     let method = if rng.chance(62) { "GET" } else { METHODS[rng.below(METHODS.len())] };
     let path = if rng.chance(62) { "ws" } else { PATHS[rng.below(PATHS.len())] };
@@ -480,7 +548,7 @@ fn random_case(rng: &mut Rng, id: usize) -> Value {
         "id": id,
         "src": "random",
         "req": {"method": method, "path": path, "ext": ext, "h": h},
-        "cfg": {"psk": rng.chance(60), "obfs": rng.chance(50), "backend": "none"},
+        "cfg": {"psk": rng.chance(60), "obfs": rng.chance(50), "backend": if echo { "echo" } else { "none" }},
         "conc": {"psk": psk, "key": key, "pick": rng.below(1000)},
     })
 }
@@ -525,11 +593,12 @@ fn main() {
                 }
                 (v, args[3].clone())
             }
-            "random" if args.len() == 5 => {
+            "random" if args.len() == 5 || args.len() == 6 => {
                 let seed: u64 = args[2].parse().expect("seed");
                 let n: usize = args[3].parse().expect("n");
                 let mut rng = Rng(seed ^ 0xC14C_14C1_4C14_C14C);
-                ((0..n).map(|i| random_case(&mut rng, i + 1)).collect(), args[4].clone())
+                let echo = args.get(5).map(String::as_str) == Some("echo");
+                ((0..n).map(|i| random_case(&mut rng, i + 1, echo)).collect(), args[4].clone())
             }
             _ => {
                 eprintln!("bad arguments");
@@ -538,8 +607,9 @@ fn main() {
         };
         let mut out = BufWriter::new(std::fs::File::create(&out_path).expect("create out"));
         writeln!(out, "{}", selftest_line()).unwrap();
+        let mut ctx = Ctx { base, backend: None };
         for c in &cases {
-            match run_case(&base, c).await {
+            match run_case(&mut ctx, c).await {
                 Ok(line) => writeln!(out, "{line}").unwrap(),
                 Err(e) => {
                     eprintln!("cannot build case {}: {e}", c["id"]);
